@@ -59,25 +59,25 @@ Lemma w_kvlist_repaired :
   idx (QKVList "a/b") s = 26 /\ idx (QKVList "a/b") (apply 27 (KVDeleteTree "a/") s) = 27.
 Proof. split; [apply neq_compute; vm_compute; reflexivity|split; vm_compute; reflexivity]. Qed.
 
-(* 2. a service id registered again under another name *)
+(* 2. (repaired in /repo by 2c57fbe) a service id registered again under another name: the old name's
+      row is now bumped / replaced by the extinction index; both former witnesses report the write's
+      index and the optimised watch fires *)
 Definition w_rename : violation :=
   Violation [(2, EnsureNode "n1" 1); (3, EnsureSvc "n1" (spec "s1" "web"))] 5 (EnsureSvc "n1" (spec "s1" "api")) (QSvcNodes "web").
-Lemma w_rename_violates : violates w_rename. Proof. violation w_rename. Qed.
-Lemma w_rename_no_wake :
+Lemma w_rename_repaired :
   let s := run (v_log w_rename) st0 in
   res (QCSN "web") (apply 5 (v_c w_rename) s) <> res (QCSN "web") s /\
-  fires (ws (QCSN "web") s) (touched 5 (v_c w_rename) s) = false.
-Proof. split; [apply neq_compute|]; vm_compute; reflexivity. Qed.
+  idx (QSvcNodes "web") s = 3 /\ idx (QSvcNodes "web") (apply 5 (v_c w_rename) s) = 5 /\
+  idx (QCSN "web") (apply 5 (v_c w_rename) s) = 5 /\
+  fires (ws (QCSN "web") s) (touched 5 (v_c w_rename) s) = true.
+Proof. split; [apply neq_compute; vm_compute; reflexivity|repeat split; vm_compute; reflexivity]. Qed.
 Definition w_rename_back : violation :=
   Violation [(2, EnsureNode "n1" 1); (3, EnsureSvc "n1" (spec "s2" "db")); (4, DelSvc "n1" "s2");
              (6, EnsureSvc "n1" (spec "s1" "web"))] 8 (EnsureSvc "n1" (spec "s1" "api")) (QSvcNodes "web").
-Lemma w_rename_back_reach :
-  Reach (last_index 0 (v_log w_rename_back)) (run (v_log w_rename_back) st0) /\ last_index 0 (v_log w_rename_back) < 8.
-Proof. split; [apply (Reach_log (v_log w_rename_back)); vm_compute; reflexivity|vm_compute; reflexivity]. Qed.
-Lemma w_rename_decreases :
+Lemma w_rename_back_repaired :
   let s := run (v_log w_rename_back) st0 in
-  idx (QSvcNodes "web") (apply 8 (v_c w_rename_back) s) < idx (QSvcNodes "web") s.
-Proof. vm_compute. reflexivity. Qed.
+  idx (QSvcNodes "web") s = 6 /\ idx (QSvcNodes "web") (apply 8 (v_c w_rename_back) s) = 8.
+Proof. split; vm_compute; reflexivity. Qed.
 
 (* 3. ConnectServiceNodes reports the index of the destination service, not of its proxies *)
 Definition w_connect : violation :=
@@ -85,15 +85,30 @@ Definition w_connect : violation :=
             (EnsureSvc "n1" (proxy "p1" "web-proxy" "web")) (QConnectNodes "web").
 Lemma w_connect_violates : violates w_connect. Proof. violation w_connect. Qed.
 
-(* 4. a check registered again against another service of the node *)
+(* 4. (repaired in /repo by e956cb5) a check registered again against another service of the node: the
+      service it leaves is bumped *)
 Definition w_check_moved : violation :=
   Violation [(2, EnsureNode "n1" 1); (3, EnsureSvc "n1" (spec "s1" "api")); (4, EnsureSvc "n1" (spec "s2" "web"));
              (5, EnsureCheck "n1" (ChkSpec "c2" 0 "s1" 0))] 7 (EnsureCheck "n1" (ChkSpec "c2" 0 "s2" 0)) (QCSN "api").
-Lemma w_check_moved_violates : violates w_check_moved. Proof. violation w_check_moved. Qed.
-Lemma w_check_moved_no_wake :
+Lemma w_check_moved_repaired :
   let s := run (v_log w_check_moved) st0 in
-  fires (ws (QCSN "api") s) (touched 7 (v_c w_check_moved) s) = false.
-Proof. vm_compute. reflexivity. Qed.
+  res (QCSN "api") (apply 7 (v_c w_check_moved) s) <> res (QCSN "api") s /\
+  idx (QCSN "api") s = 5 /\ idx (QCSN "api") (apply 7 (v_c w_check_moved) s) = 7 /\
+  fires (ws (QCSN "api") s) (touched 7 (v_c w_check_moved) s) = true.
+Proof. split; [apply neq_compute; vm_compute; reflexivity|repeat split; vm_compute; reflexivity]. Qed.
+
+(* 4b. what is left of it: the bump goes to the name STORED in the check row; after a rename of the
+      service that name is stale, and moving the check away is missed by the service's current name *)
+Definition w_move_stale : violation :=
+  Violation [(2, EnsureNode "n1" 1); (3, EnsureSvc "n1" (spec "s1" "web")); (4, EnsureSvc "n1" (spec "s2" "db"));
+             (5, EnsureCheck "n1" (ChkSpec "c2" 0 "s1" 0)); (7, EnsureSvc "n1" (spec "s1" "api"))]
+            9 (EnsureCheck "n1" (ChkSpec "c2" 0 "s2" 0)) (QCSN "api").
+Lemma w_move_stale_violates : violates w_move_stale. Proof. violation w_move_stale. Qed.
+Lemma w_move_stale_no_wake :
+  let s := run (v_log w_move_stale) st0 in
+  res (QCSN "api") (apply 9 (v_c w_move_stale) s) <> res (QCSN "api") s /\
+  fires (ws (QCSN "api") s) (touched 9 (v_c w_move_stale) s) = false.
+Proof. split; [apply neq_compute|]; vm_compute; reflexivity. Qed.
 
 (* 5. CheckConnectServiceNodes: the index is the maximum over the service names that are in the
       result NOW; when the instances of one name leave, the index falls *)
@@ -101,21 +116,20 @@ Definition w_csn_connect : violation :=
   Violation [(2, EnsureNode "n2" 1); (4, EnsureSvc "n2" (proxy "p1" "web-proxy" "web")); (5, EnsureNode "n1" 1);
              (21, EnsureSvc "n1" (SvcSpec "s1" "web" false "" true [] 80))] 27 (DelNode "n1") (QCSNConnect "web").
 Lemma w_csn_connect_violates : violates w_csn_connect. Proof. violation w_csn_connect. Qed.
+Lemma w_csn_connect_decreases :
+  let s := run (v_log w_csn_connect) st0 in
+  idx (QCSNConnect "web") (apply 27 (DelNode "n1") s) < idx (QCSNConnect "web") s.
+Proof. vm_compute. reflexivity. Qed.
 
 (* the hypotheses of the partial theorems are exactly what these witnesses break *)
-Lemma w_rename_unsafe : ~ safe_cmd (v_c w_rename) (run (v_log w_rename) st0).
+Lemma w_move_stale_incoherent : ~ Coherent (run (v_log w_move_stale) st0).
 Proof.
-  remember (run (v_log w_rename) st0) as s eqn:Es.
-  assert (Hl : services s !! ("n1", "s1") = Some (Svc "web" false "" false [] 80 3 3)) by (rewrite Es; vm_compute; reflexivity).
-  clear Es. intros HS. unfold w_rename in HS. cbn [v_c safe_cmd] in HS. destruct HS as [H _].
-  specialize (H _ Hl). vm_compute in H. discriminate.
-Qed.
-Lemma w_check_moved_unsafe : ~ safe_cmd (v_c w_check_moved) (run (v_log w_check_moved) st0).
-Proof.
-  remember (run (v_log w_check_moved) st0) as s eqn:Es.
-  assert (Hl : checks s !! ("n1", "c2") = Some (Chk 0 "s1" "api" [] 0 5 5)) by (rewrite Es; vm_compute; reflexivity).
-  clear Es. intros HS. unfold w_check_moved in HS. cbn [v_c safe_cmd] in HS. unfold chk_safe in HS.
-  specialize (HS _ Hl). vm_compute in HS. discriminate.
+  remember (run (v_log w_move_stale) st0) as s eqn:Es.
+  assert (Hc : checks s !! ("n1", "c2") = Some (Chk 0 "s1" "web" [] 0 5 5)) by (rewrite Es; vm_compute; reflexivity).
+  assert (Hs : services s !! ("n1", "s1") = Some (Svc "api" false "" false [] 80 3 7)) by (rewrite Es; vm_compute; reflexivity).
+  clear Es. intros HC.
+  pose proof (HC "n1" "c2" (Chk 0 "s1" "web" [] 0 5 5) (Svc "api" false "" false [] 80 3 7) Hc) as H.
+  cbn [c_svc c_svcname sv_name] in H. assert (H' : "api" = "web") by (apply H; [discriminate|exact Hs]). discriminate.
 Qed.
 Lemma w_connect_not_okq : ~ okq (v_q w_connect).
 Proof. intros H. inversion H as [q Hq|q Hq| |nm wc q Hq]; subst; inversion Hq. Qed.
@@ -136,7 +150,7 @@ Definition ex_state : st := run ex_log st0.
 Lemma ex_reach : Reach 8 ex_state.
 Proof. apply (Reach_log ex_log). vm_compute. reflexivity. Qed.
 
-Lemma Coherent_run log : forall s, Coherent s -> (forall pre ic post, log = pre ++ ic :: post -> safe_cmd ic.2 (run pre s)) ->
+Lemma Coherent_run log : forall s, Coherent s -> (forall pre ic post, log = pre ++ ic :: post -> rename_free ic.2 (run pre s)) ->
                                    Coherent (run log s).
 Proof.
   induction log as [|[i c] log IH]; intros s HC Hsafe; [exact HC|].
@@ -171,7 +185,7 @@ Lemma never_missed_refuted_lemma :
   ~ (forall hi s i c q, Reach hi s -> hi < i -> res q (apply i c s) <> res q s ->
        idx q s < idx q (apply i c s) /\ fires (ws q s) (touched i c s) = true).
 Proof.
-  intros H. destruct w_rename_violates as (HR & Hlt & Hc & Hn). apply Hn.
+  intros H. destruct w_connect_violates as (HR & Hlt & Hc & Hn). apply Hn.
   exact (proj1 (H _ _ _ _ _ HR Hlt Hc)).
 Qed.
 
@@ -188,10 +202,10 @@ Qed.
 Lemma monotone_refuted_lemma :
   ~ (forall hi s i c q, Reach hi s -> hi < i -> (forall u, c <> Reap u) -> idx q s <= idx q (apply i c s)).
 Proof.
-  intros H. destruct w_rename_back_reach as [HR Hlt].
-  assert (Hr : forall u, v_c w_rename_back <> Reap u) by (intros u; discriminate).
-  pose proof (H _ _ _ _ (QSvcNodes "web") HR Hlt Hr) as Hle.
-  pose proof w_rename_decreases as Hd. cbv zeta in Hd.
+  intros H. destruct w_csn_connect_violates as (HR & Hlt & _ & _).
+  assert (Hr : forall u, v_c w_csn_connect <> Reap u) by (intros u; discriminate).
+  pose proof (H _ _ _ _ (QCSNConnect "web") HR Hlt Hr) as Hle.
+  pose proof w_csn_connect_decreases as Hd. cbv zeta in Hd.
   apply N.lt_nge in Hd. apply Hd. exact Hle.
 Qed.
 
@@ -224,14 +238,11 @@ Proof.
 Qed.
 
 Lemma refuted_classes_lemma :
-  violates w_rename /\ violates w_connect /\ violates w_check_moved /\ violates w_csn_connect /\
-  (let s := run (v_log w_rename) st0 in
-   res (QCSN "web") (apply 5 (v_c w_rename) s) <> res (QCSN "web") s /\
-   fires (ws (QCSN "web") s) (touched 5 (v_c w_rename) s) = false).
-Proof.
-  exact (conj w_rename_violates (conj w_connect_violates
-        (conj w_check_moved_violates (conj w_csn_connect_violates w_rename_no_wake)))).
-Qed.
+  violates w_connect /\ violates w_csn_connect /\ violates w_move_stale /\
+  (let s := run (v_log w_move_stale) st0 in
+   res (QCSN "api") (apply 9 (v_c w_move_stale) s) <> res (QCSN "api") s /\
+   fires (ws (QCSN "api") s) (touched 9 (v_c w_move_stale) s) = false).
+Proof. exact (conj w_connect_violates (conj w_csn_connect_violates (conj w_move_stale_violates w_move_stale_no_wake))). Qed.
 
 Lemma hypotheses_met_lemma :
   Reach 8 ex_state /\ Coherent ex_state /\ 8 < 9 /\ safe_cmd ex_cmd ex_state /\ safe_query (QCSN "web") /\
@@ -241,12 +252,23 @@ Proof.
   split; [exact (proj1 ex_safe)|]. split; [exact (proj2 ex_safe)|exact ex_changes].
 Qed.
 Lemma hypotheses_exclude_lemma :
-  ~ safe_cmd (v_c w_rename) (run (v_log w_rename) st0) /\
-  ~ safe_cmd (v_c w_check_moved) (run (v_log w_check_moved) st0) /\
-  ~ okq (v_q w_connect) /\ ~ okq (v_q w_csn_connect).
-Proof.
-  exact (conj w_rename_unsafe (conj w_check_moved_unsafe (conj w_connect_not_okq w_csn_connect_not_okq))).
-Qed.
+  ~ Coherent (run (v_log w_move_stale) st0) /\ ~ okq (v_q w_connect) /\ ~ okq (v_q w_csn_connect).
+Proof. exact (conj w_move_stale_incoherent (conj w_connect_not_okq w_csn_connect_not_okq)). Qed.
+
+(* the repaired classes, as regression facts *)
+Lemma repaired_classes_lemma :
+  (let s := run (v_log w_rename) st0 in
+   res (QCSN "web") (apply 5 (v_c w_rename) s) <> res (QCSN "web") s /\
+   idx (QSvcNodes "web") s = 3 /\ idx (QSvcNodes "web") (apply 5 (v_c w_rename) s) = 5 /\
+   idx (QCSN "web") (apply 5 (v_c w_rename) s) = 5 /\
+   fires (ws (QCSN "web") s) (touched 5 (v_c w_rename) s) = true) /\
+  (let s := run (v_log w_rename_back) st0 in
+   idx (QSvcNodes "web") s = 6 /\ idx (QSvcNodes "web") (apply 8 (v_c w_rename_back) s) = 8) /\
+  (let s := run (v_log w_check_moved) st0 in
+   res (QCSN "api") (apply 7 (v_c w_check_moved) s) <> res (QCSN "api") s /\
+   idx (QCSN "api") s = 5 /\ idx (QCSN "api") (apply 7 (v_c w_check_moved) s) = 7 /\
+   fires (ws (QCSN "api") s) (touched 7 (v_c w_check_moved) s) = true).
+Proof. exact (conj w_rename_repaired (conj w_rename_back_repaired w_check_moved_repaired)). Qed.
 
 (* ---------- audit round: the exported strength ---------- *)
 Lemma never_missed_plain_lemma hi s i c q :
@@ -311,21 +333,13 @@ Lemma ex_update_safe : safe_cmd ex_update ex_state.
 Proof.
   remember ex_state as s eqn:Es.
   assert (Hsv : services s !! ("n1", "s1") = Some (Svc "web" false "" false [] 80 2 2)) by (rewrite Es; vm_compute; reflexivity).
-  assert (Hc2 : checks s !! ("n1", "c2") = Some (Chk 0 "s1" "web" [] 0 2 2)) by (rewrite Es; vm_compute; reflexivity).
-  assert (Hsh : exists x, checks s !! ("n1", "serfHealth") = Some x /\ c_svc x = "")
-    by (rewrite Es; eexists; split; [vm_compute; reflexivity|reflexivity]).
   assert (HC : Coherent s) by (rewrite Es; exact ex_coherent).
-  clear Es. cbn [safe_cmd ex_update]. split; [|split].
-  - split.
-    + intros o Ho. cbn [sp_id sp_name] in *. rewrite Hsv in Ho. injection Ho as <-. reflexivity.
-    + intros cid c Hc Hid. cbn [sp_id sp_name] in *.
-      assert (Hne : c_svc c <> "") by (rewrite Hid; discriminate).
-      assert (Hsv' : services s !! ("n1", c_svc c) = Some (Svc "web" false "" false [] 80 2 2)) by (rewrite Hid; exact Hsv).
-      pose proof (HC "n1" cid c _ Hc Hne Hsv') as H. symmetry. exact H.
-  - cbn. repeat constructor; set_solver.
-  - repeat constructor; unfold chk_safe; cbn [cs_id cs_svc]; intros o Ho.
-    + rewrite Hc2 in Ho. injection Ho as <-. reflexivity.
-    + destruct Hsh as (x & Hx & Hs0). rewrite Hx in Ho. injection Ho as <-. exact Hs0.
+  clear Es. cbn [safe_cmd ex_update]. right. split.
+  - intros o Ho. cbn [sp_id sp_name] in *. rewrite Hsv in Ho. injection Ho as <-. reflexivity.
+  - intros cid c Hc Hid. cbn [sp_id sp_name] in *.
+    assert (Hne : c_svc c <> "") by (rewrite Hid; discriminate).
+    assert (Hsv' : services s !! ("n1", c_svc c) = Some (Svc "web" false "" false [] 80 2 2)) by (rewrite Hid; exact Hsv).
+    pose proof (HC "n1" cid c _ Hc Hne Hsv') as H. symmetry. exact H.
 Qed.
 Lemma ex_update_changes : res (QCSN "web") (apply 9 ex_update ex_state) <> res (QCSN "web") ex_state.
 Proof. apply neq_compute. vm_compute. reflexivity. Qed.
